@@ -66,7 +66,13 @@ func VerifCheck(vfs *MemFS) []string {
 	if count > 100000 {
 		out = append(out, "walk does not terminate (node bound exceeded)")
 	}
+	byId := map[uint64]*fileNode{}
 	for f, n := range fileIn {
+		// SameFile tells files apart by their id: two file nodes with one id are one file to it
+		if g, dup := byId[f.id]; dup && g != f {
+			out = append(out, fmt.Sprintf("two distinct file nodes carry id %d (SameFile reports them as one file)", f.id))
+		}
+		byId[f.id] = f
 		if f.nlink != n {
 			out = append(out, fmt.Sprintf("file node id %d: stored nlink %d, %d directory entries refer to it", f.id, f.nlink, n))
 		}
